@@ -507,3 +507,69 @@ Definition trivia_chk (cf : cfg) (c : tcase) : bool :=
     | _, _ => false
     end
   end.
+
+(* ======================================================================================
+   C31: the token-level effect of format mode on the top-level declarations
+   (format.go sortFileDeclsForFormat / compareDecl; decl.go printDecl drops empty declarations).
+   A declaration is represented by what compareDecl looks at and by its non-skippable tokens. *)
+Record fdecl := mkFdecl {
+  f_rank : N;            (* rankSyntax 0, rankPackage 1, rankImport 2, rankOption 3, rankBody 4 *)
+  f_sub : bool;          (* imports: `import option` *)
+  f_name : list N;       (* importSortName / optionSortName, empty otherwise *)
+  f_empty : bool;        (* DeclKindEmpty: a lone `;` *)
+  f_toks : list (list N) (* the texts of its non-skippable tokens *)
+}.
+
+(* cmp.Compare on strings *)
+Fixpoint lex_compare (a b : list N) : comparison :=
+  match a, b with
+  | [], [] => Eq
+  | [], _ :: _ => Lt
+  | _ :: _, [] => Gt
+  | x :: a', y :: b' => match N.compare x y with Eq => lex_compare a' b' | c => c end
+  end.
+
+Definition bool_compare (a b : bool) : comparison :=
+  match a, b with
+  | false, true => Lt
+  | true, false => Gt
+  | _, _ => Eq
+  end.
+
+(* compareDecl *)
+Definition decl_compare (a b : fdecl) : comparison :=
+  match N.compare (f_rank a) (f_rank b) with
+  | Eq =>
+    if f_rank a =? 2 then
+      match bool_compare (f_sub a) (f_sub b) with
+      | Eq => lex_compare (f_name a) (f_name b)
+      | c => c
+      end
+    else if f_rank a =? 3 then lex_compare (f_name a) (f_name b)
+    else Eq
+  | c => c
+  end.
+
+Definition decl_leb (a b : fdecl) : bool :=
+  match decl_compare a b with Gt => false | _ => true end.
+
+(* slices.SortStableFunc: a stable sort; the model is the stable insertion sort *)
+Fixpoint sinsert (x : fdecl) (l : list fdecl) : list fdecl :=
+  match l with
+  | [] => [x]
+  | y :: r => if decl_leb x y then x :: y :: r else y :: sinsert x r
+  end.
+Fixpoint ssort (l : list fdecl) : list fdecl :=
+  match l with
+  | [] => []
+  | x :: r => sinsert x (ssort r)
+  end.
+
+(* the declarations format mode prints, in its order *)
+Definition format_order (ds : list fdecl) : list fdecl := filter (fun d => negb (f_empty d)) (ssort ds).
+(* ... and the sequence of non-skippable tokens of its output *)
+Definition format_effect (ds : list fdecl) : list (list N) := concat (map f_toks (format_order ds)).
+
+Inductive fcase := FC (ds : list fdecl) (observed : list (list N)).
+Definition format_chk (c : fcase) : bool :=
+  match c with FC ds obs => list_list_N_eqb (format_effect ds) obs end.
